@@ -36,6 +36,12 @@ def build_inputs(entry, rep, cond):
     else:
         store['data'] = wrap(d, 'data')
     store['error'] = wrap(err, 'error')
+    if rep == 'masked':      # the error map as a MaskedArray that owns a mask array too
+        em = np.zeros(E.SHAPE, dtype=bool); em[1, 1] = True; em[25, 3] = True
+        store['error'] = np.ma.MaskedArray(err, mask=em)
+    if entry == 'calc_total_error':      # an exposure / gain map with uncovered (zero) pixels
+        gm = np.full(E.SHAPE, 2.0); gm[0:3, :] = 0.0; gm[10, 10] = 0.0
+        store['gain_map'] = wrap(gm, 'gain_map') if rep != 'quantity' else None
     store['bkg'] = wrap(bkg, 'bkg')
     if cond in ('masked', 'nonfinite'):
         store['mask'] = wrap(mask, 'mask') if rep == 'view' else mask
